@@ -312,7 +312,168 @@ def read_structure() -> dict:
     return out
 
 
+# ---- statement-by-statement translation of the SymbolicDim operator methods (_core.py) into Gen/C16OpsGen.v
+
+CORE = os.path.join(REPO, "src", "onnx_ir", "_core.py")
+_SYMPY_UN = {"floor": "FFloor", "ceiling": "FCeil", "Abs": "FAbs", "sign": "FSign"}
+_PY_BIN = {ast.Add: "EBin BAdd", ast.Sub: "EBin BSub", ast.Mult: "EBin BMul", ast.Div: "EBin BDiv", ast.Mod: "EBin BMod",
+           ast.FloorDiv: "EFloorDiv", ast.Pow: "EBin BPow"}
+
+
+def _strip_doc(body):
+    if body and isinstance(body[0], ast.Expr) and isinstance(body[0].value, ast.Constant) \
+            and isinstance(body[0].value.value, str):
+        return body[1:]
+    return body
+
+
+def _is_attr(n, base: str, attr: str) -> bool:
+    return isinstance(n, ast.Attribute) and n.attr == attr and isinstance(n.value, ast.Name) and n.value.id == base
+
+
+def _dunder_expr(e: ast.expr, other_kind: str) -> str:
+    """A SymPy-building Python expression over self._expr / other / other._expr  ->  a Model.expr term over `self`
+    and `other` (other : Z when other_kind == 'int', other : expr when 'dim').  Fail closed."""
+    if _is_attr(e, "self", "_expr"):
+        return "self"
+    if _is_attr(e, "other", "_expr"):
+        _need(other_kind == "dim", "other._expr used in the int branch")
+        return "other"
+    if isinstance(e, ast.Name) and e.id == "other":
+        _need(other_kind == "int", "bare `other` used in the SymbolicDim branch")
+        return "(EInt other)"
+    if isinstance(e, ast.Constant) and isinstance(e.value, int) and not isinstance(e.value, bool):
+        return f"(EInt {cZ(e.value)})"
+    if isinstance(e, ast.UnaryOp) and isinstance(e.op, ast.USub):
+        return f"(ENeg {_dunder_expr(e.operand, other_kind)})"
+    if isinstance(e, ast.BinOp):
+        for k, v in _PY_BIN.items():
+            if isinstance(e.op, k):
+                return f"({v} {_dunder_expr(e.left, other_kind)} {_dunder_expr(e.right, other_kind)})"
+        raise T.Unsupported("operator " + ast.dump(e.op))
+    if isinstance(e, ast.Call) and isinstance(e.func, ast.Attribute) and isinstance(e.func.value, ast.Name) \
+            and e.func.value.id == "sympy" and not e.keywords:
+        f, a = e.func.attr, e.args
+        if f in ("sympify", "Integer") and len(a) == 1:
+            return _dunder_expr(a[0], other_kind)
+        if f in _SYMPY_UN and len(a) == 1:
+            return f"(EUn {_SYMPY_UN[f]} {_dunder_expr(a[0], other_kind)})"
+        if f == "Rational" and len(a) == 2:
+            return f"(EBin BDiv {_dunder_expr(a[0], other_kind)} {_dunder_expr(a[1], other_kind)})"
+        if f in ("Max", "Min", "Mod") and len(a) == 2:
+            return f"(EBin B{f} {_dunder_expr(a[0], other_kind)} {_dunder_expr(a[1], other_kind)})"
+    raise T.Unsupported("expression outside the translatable subset: " + ast.unparse(e))
+
+
+def _ret_dim(st: ast.stmt, what: str) -> ast.expr:
+    """`return SymbolicDim(<E>)` -> <E>"""
+    _need(isinstance(st, ast.Return) and isinstance(st.value, ast.Call) and isinstance(st.value.func, ast.Name)
+          and st.value.func.id == "SymbolicDim" and len(st.value.args) == 1 and not st.value.keywords, what + ": return SymbolicDim(...)")
+    return st.value.args[0]
+
+
+def _is_none_ret(st: ast.stmt) -> bool:
+    return isinstance(st, ast.Return) and isinstance(st.value, ast.Call) and isinstance(st.value.func, ast.Name) \
+        and st.value.func.id == "SymbolicDim" and len(st.value.args) == 1 \
+        and isinstance(st.value.args[0], ast.Constant) and st.value.args[0].value is None
+
+
+def _guard_self_none(st: ast.stmt, what: str):
+    _need(isinstance(st, ast.If) and not st.orelse and isinstance(st.test, ast.Compare) and len(st.test.ops) == 1
+          and isinstance(st.test.ops[0], ast.Is) and _is_attr(st.test.left, "self", "_expr")
+          and isinstance(st.test.comparators[0], ast.Constant) and st.test.comparators[0].value is None
+          and len(st.body) == 1 and _is_none_ret(st.body[0]), what + ": `if self._expr is None: return SymbolicDim(None)`")
+
+
+def _isinstance_other(st: ast.stmt, cls: str) -> bool:
+    t = st.test if isinstance(st, ast.If) else None
+    return isinstance(t, ast.Call) and isinstance(t.func, ast.Name) and t.func.id == "isinstance" and len(t.args) == 2 \
+        and isinstance(t.args[0], ast.Name) and t.args[0].id == "other" and isinstance(t.args[1], ast.Name) \
+        and t.args[1].id == cls and not st.orelse
+
+
+def _not_implemented(st: ast.stmt) -> bool:
+    return isinstance(st, ast.Return) and isinstance(st.value, ast.Name) and st.value.id == "NotImplemented"
+
+
+BIN_DUNDERS = ("add", "sub", "mul", "floordiv", "truediv", "mod")
+REFL_DUNDERS = ("radd", "rsub", "rmul", "rtruediv")
+UN_DUNDERS = ("neg", "ceil", "floor", "trunc")
+
+
+def translate_dunders() -> str:
+    mod = T._src(CORE)
+    cls = next((n for n in mod.body if isinstance(n, ast.ClassDef) and n.name == "SymbolicDim"), None)
+    _need(cls is not None, "class SymbolicDim")
+    meths = {n.name: n for n in cls.body if isinstance(n, ast.FunctionDef)}
+    arith = sorted(m for m in meths if m.startswith("__") and m.endswith("__") and m[2:-2] in
+                   {"add", "radd", "sub", "rsub", "mul", "rmul", "floordiv", "rfloordiv", "truediv", "rtruediv", "mod", "rmod",
+                    "pow", "rpow", "neg", "pos", "abs", "ceil", "floor", "trunc", "round", "divmod", "rdivmod", "matmul"})
+    expected = sorted(f"__{m}__" for m in BIN_DUNDERS + REFL_DUNDERS + UN_DUNDERS)
+    _need(arith == expected, f"arithmetic methods of SymbolicDim are {arith}, the model knows {expected}")
+    out = ("(* GENERATED by harness/props/c16.py (translate_dunders) from /repo/src/onnx_ir/_core.py, class SymbolicDim,\n"
+           "   on every run - do not edit.  One definition per branch of every arithmetic method: the SymPy expression the\n"
+           "   method asks for, as a Model.expr over `self` (= self._expr) and `other` (an int or other._expr).  Every method\n"
+           "   starts with `if self._expr is None: return SymbolicDim(None)`; binary methods end with `return NotImplemented`. *)\n"
+           "From Coq Require Import ZArith List.\nFrom IRV Require Import C16.Model.\n\n")
+
+    def body_of(fn):
+        return _strip_doc(fn.body)
+
+    for m in BIN_DUNDERS:
+        fn = meths[f"__{m}__"]
+        b = body_of(fn)
+        what = f"SymbolicDim.__{m}__"
+        _need(len(b) == 4, what + ": four statements")
+        _guard_self_none(b[0], what)
+        _need(_isinstance_other(b[1], "int") and len(b[1].body) == 1, what + ": `if isinstance(other, int): return ...`")
+        e_int = _ret_dim(b[1].body[0], what)
+        _need(_isinstance_other(b[2], "SymbolicDim") and len(b[2].body) == 2, what + ": SymbolicDim branch")
+        g = b[2].body[0]
+        _need(isinstance(g, ast.If) and not g.orelse and isinstance(g.test, ast.Compare) and _is_attr(g.test.left, "other", "_value")
+              and isinstance(g.test.ops[0], ast.Is) and len(g.body) == 1 and _is_none_ret(g.body[0]),
+              what + ": `if other._value is None: return SymbolicDim(None)`")
+        e_dim = _ret_dim(b[2].body[1], what)
+        _need(_not_implemented(b[3]), what + ": return NotImplemented")
+        out += f"(* {what}: int branch `{ast.unparse(e_int)}` ; SymbolicDim branch `{ast.unparse(e_dim)}` *)\n"
+        out += f"Definition op_{m}_int (self : expr) (other : Z) : expr := {_dunder_expr(e_int, 'int')}.\n"
+        out += f"Definition op_{m}_dim (self other : expr) : expr := {_dunder_expr(e_dim, 'dim')}.\n"
+    for m in REFL_DUNDERS:
+        fn = meths[f"__{m}__"]
+        b = body_of(fn)
+        what = f"SymbolicDim.__{m}__"
+        if len(b) == 2:            # delegating form: if isinstance(other, int): return self.__x__(other)
+            _need(_isinstance_other(b[0], "int") and len(b[0].body) == 1 and _not_implemented(b[1]), what + ": delegating form")
+            r = b[0].body[0]
+            _need(isinstance(r, ast.Return) and isinstance(r.value, ast.Call) and _is_attr(r.value.func, "self", f"__{m[1:]}__")
+                  and len(r.value.args) == 1 and isinstance(r.value.args[0], ast.Name) and r.value.args[0].id == "other",
+                  what + f": return self.__{m[1:]}__(other)")
+            out += f"(* {what}: `{ast.unparse(r)}` *)\n"
+            out += f"Definition op_{m}_int (self : expr) (other : Z) : expr := op_{m[1:]}_int self other.\n"
+        else:
+            _need(len(b) == 3, what + ": three statements")
+            _guard_self_none(b[0], what)
+            _need(_isinstance_other(b[1], "int") and len(b[1].body) == 1 and _not_implemented(b[2]), what + ": int branch")
+            e_int = _ret_dim(b[1].body[0], what)
+            out += f"(* {what}: `{ast.unparse(e_int)}` *)\n"
+            out += f"Definition op_{m}_int (self : expr) (other : Z) : expr := {_dunder_expr(e_int, 'int')}.\n"
+    for m in UN_DUNDERS:
+        fn = meths[f"__{m}__"]
+        b = body_of(fn)
+        what = f"SymbolicDim.__{m}__"
+        _need(len(b) == 2, what + ": two statements")
+        _guard_self_none(b[0], what)
+        e = _ret_dim(b[1], what)
+        out += f"(* {what}: `{ast.unparse(e)}` *)\n"
+        out += f"Definition op_{m} (self : expr) : expr := {_dunder_expr(e, 'none')}.\n"
+    return out
+
+
 def generate(ck) -> bool:
+    try:
+        ck.gen("C16OpsGen", translate_dunders())
+    except (T.Unsupported, SyntaxError, OSError) as e:
+        ck.gen_failed("C16OpsGen", e)
     try:
         t = read_tables()
         sl = lambda l: clist(cstr(s) for s in l)  # noqa: E731
@@ -536,6 +697,27 @@ def cexpr(m) -> str:
     if k == "EUn":
         return f"(EUn {m[1]} {cexpr(m[2])})"
     return f"(EBin {m[1]} {cexpr(m[2])} {cexpr(m[3])})"
+
+
+_BUN = {"neg": "BuNeg", "floor": "BuFloor", "ceil": "BuCeil", "trunc": "BuTrunc", "abs": "BuAbs", "sign": "BuSign",
+        "sqrt": "BuSqrt"}
+_BBIN = {"add": "BbAdd", "sub": "BbSub", "mul": "BbMul", "div": "BbDiv", "floordiv": "BbFloorDiv", "mod": "BbMod",
+         "max": "BbMax", "min": "BbMin", "pow": "BbPow"}
+
+
+def cbtree(t) -> str:
+    """A build tree as a C16/Ops.v btree: Coq maps it to the expression through the operator methods translated
+    from _core.py (Gen/C16OpsGen.v), not through this module's to_model."""
+    k = t[0]
+    if k == "sym":
+        return f"(KSym {cstr(t[1])})"
+    if k == "usym":
+        return f"(KUsym {cstr(t[1])} {cZ(t[3])} {cZ(t[4])})"
+    if k == "int":
+        return f"(KInt {cZ(t[1])})"
+    if k in _BUN:
+        return f"(KUn {_BUN[k]} {cbtree(t[1])})"
+    return f"(KBin {_BBIN[k]} {cbtree(t[1])} {cbtree(t[2])})"
 
 
 def cq(q: Fraction) -> str:
@@ -1246,7 +1428,7 @@ def observe_string(text: str, b: dict) -> dict:
 # --------------------------------------------------------------------------- case files
 
 CASE_HEADER = """From Coq Require Import ZArith NArith List Bool QArith.
-From IRV Require Import Base.Exn Gen.C16Gen C16.Model.
+From IRV Require Import Base.Exn Gen.C16Gen C16.Model Gen.C16OpsGen C16.Ops.
 Import ListNotations.
 """
 
@@ -1313,16 +1495,20 @@ def tree_case_file(rows: list[tuple[dict, dict]]) -> str:
         if st is not None and "Piecewise" not in st:
             texts.append(cpair(cstr(st), cenv(b)))
         texts = [x for x in texts if all(ord(ch) < 128 for ch in x)]
-        items.append("(" + ", ".join([cexpr(to_model(case["tree"])), cenv(b), cenv(part), cenv(rest),
+        items.append("(" + ", ".join([cbtree(case["tree"]), cexpr(to_model(case["tree"])), cenv(b), cenv(part), cenv(rest),
                                       clist(_obs_q(obs.get(k)) for k in TREE_KEYS), clist(texts)]) + ")")
     return CASE_HEADER + (
-        "Definition cases : list (expr * env * env * env * list (option (option Q)) * list (list N * env)) :=\n  "
-        + clist(items).replace("; ((E", ";\n  ((E") + ".\n"
-        "Definition agree (c : expr * env * env * env * list (option (option Q)) * list (list N * env)) : bool :=\n"
-        "  let '(e, b, part, rest, observed, texts) := c in\n"
+        "Definition cases : list (btree * expr * env * env * env * list (option (option Q)) * list (list N * env)) :=\n  "
+        + clist(items).replace("; ((K", ";\n  ((K") + ".\n"
+        "(* e = to_expr bt: the expression through the operator methods TRANSLATED from _core.py; e0 = the harness's own\n"
+        "   reading of the same build tree (to_model): both must have the implementation's value *)\n"
+        "Definition agree (c : btree * expr * env * env * env * list (option (option Q)) * list (list N * env)) : bool :=\n"
+        "  let '(bt, e0, b, part, rest, observed, texts) := c in\n"
+        "  let e := to_expr bt in\n"
         "  match eval b e with\n"
-        "  | None => true\n"
+        "  | None => match eval b e0 with None => true | Some _ => false end\n"
         "  | Some q =>\n"
+        "      oq_eqb (eval b e0) (Some q) &&\n"
         "      forallb (fun o => match o with Some w => oq_eqb w (Some q) | None => true end) observed\n"
         "      && oq_eqb (eval rest (subst part e)) (Some q)\n"
         "      && forallb (fun tb => match parse_dim (fst tb) with\n"
